@@ -75,7 +75,8 @@ VSameVerdict(ev) ==
 VLeaf(ev) ==
   IF ~Terminated(ev) THEN "bad:crash"
   ELSE IF ev.exitDefault # ev.exitLeaf
-       THEN (IF KF_C13_union(ev) THEN "kf:C13-same-size-change-in-union" ELSE "bad:leaf-mode-exit-status-differs")
+       THEN (IF KF_C13_union(ev) THEN "kf:C13-same-size-change-in-union"
+             ELSE IF KF_C13_cvtypedef(ev) THEN "kf:C13-renamed-typedef-made-const" ELSE "bad:leaf-mode-exit-status-differs")
   ELSE IF ~(ToSet(ev.changedDefault) \subseteq ToSet(ev.mentionedLeaf)) THEN "bad:changed-interface-not-impacted-in-leaf-mode"
   ELSE "ok"
 
